@@ -549,10 +549,84 @@ func ruleRawTokenOnly(p *Prog, l *Ledger, tier string) {
 			}
 		}
 	}
+	// (round 17) the text of a run is not the Data of a Token() either: the tokenizer has unescaped it with the full
+	// HTML entity table (&copy, &#33; and legacy names without a semicolon), where the readers decode only the
+	// entities their writers produce
+	for _, name := range []string{"parseTextWebVTT", "parseTextSrt"} {
+		fn := p.Fn(name)
+		if fn == nil {
+			continue
+		}
+		for _, f := range p.Closure([]*ssa.Function{fn}) {
+			if fnPkg(f) != p.LibSSA {
+				continue
+			}
+			for _, b := range f.Blocks {
+				for _, ins := range b.Instrs {
+					st, ok := ins.(*ssa.Store)
+					if !ok {
+						continue
+					}
+					fa, ok := st.Addr.(*ssa.FieldAddr)
+					if !ok || fieldName(fa.X.Type(), fa.Field) != "Text" || !isPtrToNamed(fa.X.Type(), "LineItem") {
+						continue
+					}
+					if tokenData(st.Val, map[ssa.Value]bool{}, 0) {
+						bad++
+						l.Fail(rule, FnName(f), l.Key(rule, FnName(f), "token-data", ""), p.Pos(st.Pos()), FnName(f)+" stores the Data of an html.Token as the text of a run: the tokenizer has already replaced every HTML character reference in it (&copy=, &#33;, &gt;), so text that merely contains an ampersand is altered on reading; the text is the raw token, unescaped with the library's own table")
+					}
+				}
+			}
+		}
+	}
 	if bad == 0 {
-		l.Prove(rule, "", rule+"|all", "", fmt.Sprintf("%d uses of the raw token, none of Tokenizer.Text", raw))
+		l.Prove(rule, "", rule+"|all", "", fmt.Sprintf("%d uses of the raw token, none of Tokenizer.Text, no run text taken from Token.Data", raw))
 	}
 	l.Min(rule, raw, 2)
+}
+
+// tokenData: v is computed from the Data field of a golang.org/x/net/html.Token.
+func tokenData(v ssa.Value, seen map[ssa.Value]bool, depth int) bool {
+	if v == nil || seen[v] || depth > 10 {
+		return false
+	}
+	seen[v] = true
+	isTok := func(t types.Type) bool {
+		if pt, ok := t.Underlying().(*types.Pointer); ok {
+			t = pt.Elem()
+		}
+		nt, ok := t.(*types.Named)
+		return ok && nt.Obj().Name() == "Token" && nt.Obj().Pkg() != nil && strings.HasSuffix(nt.Obj().Pkg().Path(), "net/html")
+	}
+	switch x := v.(type) {
+	case *ssa.Field:
+		if isTok(x.X.Type()) && fieldName(x.X.Type(), x.Field) == "Data" {
+			return true
+		}
+		return false
+	case *ssa.UnOp:
+		if fa, ok := x.X.(*ssa.FieldAddr); ok && isTok(fa.X.Type()) && fieldName(fa.X.Type(), fa.Field) == "Data" {
+			return true
+		}
+		return tokenData(x.X, seen, depth+1)
+	case *ssa.Phi:
+		for _, e := range x.Edges {
+			if tokenData(e, seen, depth+1) {
+				return true
+			}
+		}
+	case *ssa.Call:
+		for _, a := range x.Call.Args {
+			if isStringT(a.Type()) && tokenData(a, seen, depth+1) {
+				return true
+			}
+		}
+	case *ssa.BinOp:
+		return tokenData(x.X, seen, depth+1) || tokenData(x.Y, seen, depth+1)
+	case *ssa.Convert:
+		return tokenData(x.X, seen, depth+1)
+	}
+	return false
 }
 
 // ---- E10-A14 SSA style reference is kept and resolved verbatim (C04/2) ------------------------------------------
